@@ -2,8 +2,11 @@ package harness
 
 import (
 	"context"
+	"crypto/sha256"
 	"fmt"
 	"time"
+
+	"github.com/mr-tron/base58"
 
 	"github.com/bartossh/Computantis/src/accountant"
 	"github.com/bartossh/Computantis/src/gossip"
@@ -60,13 +63,19 @@ func (w *World) craft(n *Node, s *Step, sealer *wallet.Wallet) (*accountant.Vert
 	if s.Data > 0 {
 		data = w.rng.Bytes(s.Data)
 	}
+	var issuer transaction.Signer = iss
 	switch s.Kind {
 	case "self-sealed":
-		iss = sealer
+		issuer = sealer
 	case "genesis-issuer":
-		iss = w.Nodes[0].W
+		issuer = w.Nodes[0].W
+	case "self-sealed-alias":
+		// the sealing wallet issues the transaction under another spelling of its own address
+		issuer = aliasOf(sealer, byte(1+w.rng.Intn(250)))
+	case "genesis-issuer-alias":
+		issuer = aliasOf(w.Nodes[0].W, byte(1+w.rng.Intn(250)))
 	}
-	trx, err := transaction.New("crafted", amount, data, rcv.Address(), iss)
+	trx, err := transaction.New("crafted", amount, data, rcv.Address(), issuer)
 	if err != nil {
 		return nil, err
 	}
@@ -231,7 +240,7 @@ func (w *World) doInject(i int, s *Step, n *Node, res *StepResult) {
 			w.probe("c10-overtaken-parent-admitted-later")
 		}
 	}
-	mustReject := s.Kind == "self-sealed" || s.Kind == "genesis-issuer" || s.Kind == "empty"
+	mustReject := s.Kind == "self-sealed" || s.Kind == "genesis-issuer" || s.Kind == "empty" || s.Kind == "self-sealed-alias" || s.Kind == "genesis-issuer-alias"
 	if mustReject && before != nil && after != nil {
 		w.probe("c10-forbidden-vertex-offered")
 		if _, in := after.Live[v.Hash]; in {
@@ -318,4 +327,23 @@ func (w *World) streamCorruption(kind string, cur *pb.Vertex, seen []*pb.Vertex)
 		return []*pb.Vertex{gossip.VerifVertexToProto(&nv)}
 	}
 	return nil
+}
+
+// aliasWallet signs with a wallet's key but presents its address with another version byte: the same
+// public key and a checksum that is right for that version byte - a second spelling of the same wallet.
+type aliasWallet struct {
+	w    *wallet.Wallet
+	addr string
+}
+
+func (a aliasWallet) Address() string { return a.addr }
+func (a aliasWallet) Sign(message []byte) (digest [32]byte, signature []byte) {
+	return a.w.Sign(message)
+}
+
+func aliasOf(wl *wallet.Wallet, version byte) aliasWallet {
+	body := append([]byte{version}, wl.Public...)
+	h1 := sha256.Sum256(body)
+	h2 := sha256.Sum256(h1[:])
+	return aliasWallet{w: wl, addr: base58.Encode(append(body, h2[:4]...))}
 }
